@@ -110,9 +110,9 @@ func craftRoots(s *world.Server, curNB, curNA, nextNB, nextNA time.Duration) (*t
 	return roots, ck, nk
 }
 
-func newAdvWorld(name, storage string) *advWorld {
+func newAdvWorld(name, storage string, wrap ...bool) *advWorld {
 	w := &advWorld{name: name, storage: storage}
-	cfg := world.ServerCfg{Backend: storage}
+	cfg := world.ServerCfg{Backend: storage, StorageWrap: len(wrap) > 0 && wrap[0]}
 	const day = 24 * time.Hour
 	switch name {
 	case "normal":
@@ -867,8 +867,11 @@ func runTLSAdv(c *engine.Ctx) engine.Result {
 			wg.Add(1)
 			go func(p int) {
 				defer wg.Done()
-				w := newAdvWorld(k.w, k.s)
+				w := newAdvWorld(k.w, k.s, p%2 == 1) // every second world seals its records with a storage wrapper
 				defer w.close()
+				if p%2 == 1 {
+					r.Count("worlds_with_storage_wrapper", 1)
+				}
 				for i := p; i < len(list); i += parts {
 					w.runProduct(c, list[i])
 					mu.Lock()
@@ -978,6 +981,7 @@ func runTLSAdv(c *engine.Ctx) engine.Result {
 	r.Require("oracle_forbids:no_record_or_bad_signature", 10)
 	r.Require("mutations_that_still_decode", 10)
 	r.Require("seq_registered_connects", 10)
+	r.Require("worlds_with_storage_wrapper", 3)
 	r.Require("mixed_prefix_lists:fetch-first", 10)
 	r.Require("mixed_prefix_lists:auth-first", 10)
 	if n := r.Counter("positive_control_REJECTED"); n > 0 {
